@@ -6,10 +6,11 @@ ROOT = os.path.dirname(os.path.dirname(os.path.abspath(__file__)))
 import sys, importlib, glob
 sys.path.insert(0, ROOT)
 CHECKS = {}
-for f in sorted(glob.glob(os.path.join(ROOT, 'vf', 'checks', 'c[0-9][0-9].py'))):
-    m = importlib.import_module('vf.checks.' + os.path.basename(f)[:-3])
-    if getattr(m, 'MANIFEST', None) and getattr(m, 'REGISTERED', True):
-        CHECKS[m.ID] = m.MANIFEST
+# only checks listed in tools/registered.txt are claimed (a check is added there after its silence soak)
+REG = [l.strip() for l in open(os.path.join(ROOT, 'tools', 'registered.txt')) if l.strip() and not l.startswith('#')]
+for pid in REG:
+    m = importlib.import_module('vf.checks.' + pid.lower())
+    CHECKS[m.ID] = m.MANIFEST
 
 NOT_YET = {}
 
